@@ -8,6 +8,9 @@ type C16Case struct {
 	Sets      string `json:"sets"`      // legacy | versioned
 	MuxEnv    string `json:"muxEnv"`    // unset | empty | true | false | junk
 	Strace    bool   `json:"strace"`
+	// Versions is the value of PLUGIN_PROTOCOL_VERSIONS: "" means the default "1,2"; "unset" leaves the
+	// variable out, "empty" sets it to the empty string; anything else is passed literally (no common version, non-integer entries, blanks).
+	Versions string `json:"versions,omitempty"`
 }
 
 type C16Obs struct {
